@@ -2,7 +2,7 @@
    A case is (function code, check the spec too?, observations oldest first); an observation is what the real function object
    did at one evaluation: (now_ms, evaluated arguments, outcome, _asap_eval_paused_until_ms afterwards).
    bad_model / bad_spec return  case_index * STRIDE + index of the first disagreeing evaluation. *)
-From QT Require Export C16.Spec.
+From QT Require Export C16.Spec C16.ArgModel.
 From Coq Require Import Uint63.
 Open Scope Z_scope.
 
@@ -15,7 +15,6 @@ Fixpoint zdigits (l : list int) : Z := match l with [] => 0 | d :: r => Uint63.t
 Definition zl (neg : bool) (l : list int) : Z := if neg then - zdigits l else zdigits l.
 Definition vi (i : int) : pyval := VInt (zi i).
 Definition vf (s : bool) (m : int) (e : Z) : pyval := VFloat (S754_finite s (Z.to_pos (zi m)) e).
-Definition ob (now : Z) (a : list pyval) (o : outc) (d : pyval) : Z * list pyval * outc * pyval := (now, a, o, d).
 Definition pc : pyval -> list pyval -> list pyval := @cons pyval.
 Definition pn : list pyval := @nil pyval.
 
@@ -42,51 +41,88 @@ Definition outc_sem_eqb (a b : outc) : bool :=
   | _, _ => outc_eqb a b
   end.
 
-Definition obs := (Z * list pyval * outc * pyval)%type.
-Definition case := (Z * bool * list obs)%type.
+Definition xout_eqb (a b : xout) : bool :=
+  match a, b with
+  | XOut x, XOut y => outc_eqb x y
+  | XUnavail, XUnavail => true
+  | XErr, XErr => true
+  | _, _ => false
+  end.
+Definition xout_sem_eqb (a b : xout) : bool :=
+  match a, b with XOut x, XOut y => outc_sem_eqb x y | _, _ => xout_eqb a b end.
+
+(* an observation: (now_ms, outcome of every argument expression, what the function object answered,
+   _asap_eval_paused_until_ms afterwards, positions of the counted ($port) arguments that were evaluated) *)
+Definition obs := (Z * list argo * xout * pyval * list Z)%type.
+(* (function code, check the spec too?, positions of the counted arguments, observations oldest first) *)
+Definition case := (Z * bool * list Z * list obs)%type.
 Definition STRIDE : Z := 10000.
 Definition oc : obs -> list obs -> list obs := @cons obs.
 Definition on : list obs := @nil obs.
-Definition r (now : int) (a : list pyval) (o : outc) (d : pyval) (rest : list obs) : list obs := (zi now, a, o, d) :: rest.
-Definition cs (c : Z) (sp : bool) (l : list obs) : case := (c, sp, l).
+Definition r (now : int) (a : list argo) (o : xout) (d : pyval) (ev : list Z) (rest : list obs) : list obs :=
+  (zi now, a, o, d, ev) :: rest.
+Definition ob (now : Z) (a : list argo) (o : xout) (d : pyval) (ev : list Z) : obs := (now, a, o, d, ev).
+Definition ac : argo -> list argo -> list argo := @cons argo.
+Definition an : list argo := @nil argo.
+Definition cs (c : Z) (sp : bool) (mask : list Z) (l : list obs) : case := (c, sp, mask, l).
 Definition cc : case -> list case -> list case := @cons case.
 Definition cn : list case := @nil case.
 
-Fixpoint check_model (f : fn) (st : fstate) (i : Z) (l : list obs) : option Z :=
+(* the evaluated positions restricted to the counted ones, as sorted Z list *)
+Definition counted (mask : list Z) (ev : list nat) : list Z :=
+  filter (fun i => existsb (fun j => Z.of_nat j =? i) ev) mask.
+
+Fixpoint check_model (f : fn) (mask : list Z) (st : fstate) (i : Z) (l : list obs) : option Z :=
   match l with
   | [] => None
-  | (now, a, o, d) :: r =>
-      let '(st', o', p) := fstep f st now a in
-      if outc_eqb o o' && pyval_eqb d (deadline p) then check_model f st' (i + 1) r else Some i
+  | (now, a, o, d, ev) :: r =>
+      let '(st', o', p, ev') := ostep f st now a in
+      if xout_eqb o o' && pyval_eqb d (deadline p) && list_eqb Z.eqb ev (counted mask ev')
+      then check_model f mask st' (i + 1) r else Some i
   end.
 
-(* the implementation's answer at every evaluation against the specification of the history so far, wherever the
-   specification speaks (preconditions hold, no Python exception so far) *)
-Fixpoint check_spec (f : fn) (h : hist) (i : Z) (l : list obs) : option Z :=
+Definition xis_exc (x : xout) : bool := match x with XOut o => is_exc o | _ => false end.
+
+(* the implementation's answer at every evaluation against the specification of the effective history so far, wherever
+   the specification speaks (preconditions hold, no Python exception so far, history inside the specification) *)
+(* [dpre] = spec_pre DELAY h, maintained incrementally (delay_pre_inc); other functions recompute their precondition *)
+Definition pre_next (f : fn) (dpre : bool) (s' : sample) (h : hist) : bool :=
+  match f with DELAY => dpre && delay_top s' h | _ => spec_pre f (s' :: h) end.
+
+Fixpoint check_spec (f : fn) (mask : list Z) (h : hist) (dpre : bool) (i : Z) (l : list obs) : option Z :=
   match l with
   | [] => None
-  | (now, a, o, _) :: r =>
-      let h' := (now, a) :: h in
-      if is_exc o then None
-      else if shaped f h' && times_pos h' && spec_pre f h' then
-        if outc_sem_eqb o (spec_of f h') then check_spec f h' (i + 1) r else Some i
-      else check_spec f h' (i + 1) r
+  | (now, a, o, _, ev) :: r =>
+      if xis_exc o then None else
+      let ev_ok := list_eqb Z.eqb ev (counted mask (spec_evaluated f h (now, a))) in
+      match eff_step f h (now, a) with
+      | EStop => None
+      | EDrop x =>
+          if shaped f h && times_pos h && (match f with DELAY => dpre | _ => spec_pre f h end) && negb (xout_eqb o x && ev_ok)
+          then Some i else check_spec f mask h dpre (i + 1) r
+      | EKeep s' =>
+          let h' := s' :: h in
+          let dpre' := pre_next f dpre s' h in
+          if shaped f h' && times_pos h' && dpre' then
+            if xout_sem_eqb o (XOut (spec_of f h')) && ev_ok then check_spec f mask h' dpre' (i + 1) r else Some i
+          else check_spec f mask h' dpre' (i + 1) r
+      end
   end.
 
-Fixpoint collect (chk : fn -> list obs -> option Z) (want_spec : bool) (cases : list case) (i : Z) : list Z :=
+Fixpoint collect (chk : fn -> list Z -> list obs -> option Z) (want_spec : bool) (cases : list case) (i : Z) : list Z :=
   match cases with
   | [] => []
-  | (c, sp, l) :: r =>
+  | (c, sp, mask, l) :: r =>
       let rest := collect chk want_spec r (i + 1) in
       if want_spec && negb sp then rest else
       match fn_of_code c with
       | None => (i * STRIDE) :: rest
-      | Some f => match chk f l with Some k => (i * STRIDE + k) :: rest | None => rest end
+      | Some f => match chk f mask l with Some k => (i * STRIDE + k) :: rest | None => rest end
       end
   end.
 
-Definition bad_model (cases : list case) : list Z := collect (fun f l => check_model f st0 0 l) false cases 0.
-Definition bad_spec (cases : list case) : list Z := collect (fun f l => check_spec f [] 0 l) true cases 0.
+Definition bad_model (cases : list case) : list Z := collect (fun f m l => check_model f m st0 0 l) false cases 0.
+Definition bad_spec (cases : list case) : list Z := collect (fun f m l => check_spec f m [] true 0 l) true cases 0.
 
 (* ---------------------------------------------------------------- the hub loop on the model (used for the HELD witness) *)
 Definition port_values_with_pauses (f : fn) (ts : list tick) := run_with_pauses (fstep f) ts.
